@@ -87,6 +87,7 @@ type Sched struct {
 	Policy    int
 	MeanQ     int
 	MaxSteps  uint64
+	MaxSwitches int
 	fp        *Fingerprint
 	Switches  int
 	SwitchSet map[[2]int32]struct{}
@@ -114,7 +115,7 @@ type Sched struct {
 }
 
 func NewSched(ch *Choices, policy, meanQ int) *Sched {
-	return &Sched{ch: ch, toSched: make(chan schedMsg), Policy: policy, MeanQ: meanQ, MaxSteps: 3_000_000,
+	return &Sched{ch: ch, toSched: make(chan schedMsg), Policy: policy, MeanQ: meanQ, MaxSteps: 3_000_000, MaxSwitches: 120_000,
 		fp: NewFingerprint(), SwitchSet: map[[2]int32]struct{}{}}
 }
 
@@ -246,6 +247,9 @@ func (s *Sched) runnable() []*Task {
 }
 
 func (s *Sched) quantumFor() int {
+	if s.MaxSwitches > 0 && s.Switches > s.MaxSwitches {
+		return 1 << 16 // enough interleaving explored in this run: finish it in long quanta
+	}
 	switch s.Policy {
 	case polSequential:
 		return 1 << 30
@@ -350,6 +354,9 @@ func (s *Sched) Run() {
 			break
 		}
 		decisions++
+		if decisions&1023 == 0 {
+			progressBeat.Add(1)
+		}
 		if s.Policy == polPCT && s.pctChange[decisions] {
 			// priority change point: the running task drops to the lowest priority
 			if s.cur != nil {
